@@ -35,6 +35,7 @@ Lemma invert_fig_of four i k : 0 <= i < fam_size four ->
   invert_fig (fig_of four i) k = Some (fig_of four ((i + k) mod fam_size four)).
 Proof.
   intros H. unfold invert_fig.
+  assert (Cn : canon_fig (fig_of four i) = fig_of four i) by (index_cases four i H; reflexivity). rewrite Cn. unfold invert_fig0.
   destruct four; cbn [fam_size] in *.
   - assert (E : sindex (fig_of true i) four_family = Some (Z.to_nat i)).
     { assert (Hc : i = 0 \/ i = 1 \/ i = 2 \/ i = 3) by lia. destruct Hc as [->|[->|[->| ->]]]; reflexivity. }
